@@ -441,3 +441,134 @@ def an_blank(sub, payload, unit, tag, res):
                       detail={"term": s[:200]})
     sub.extra_coverage["blank_float_leaves"] = n_f
     sub.extra_coverage["blank_int_leaves"] = n_i
+
+
+# ---------------------------------------------------------------------------------------------------
+# C17: every time decoder ≡ Instant(year, day_of_year, fraction) with day 1 = 1 January
+# ---------------------------------------------------------------------------------------------------
+NS_DAY = 86400 * 10**9
+YEAR_OF = z3.Function("year_of_us", z3.IntSort(), z3.IntSort())  # calendar year of a datetime given in µs
+
+
+def instant_ns(year, doy, frac_ns):
+    """the specification: 1 January of `year` + (doy - 1) days + fraction, in ns since the epoch"""
+    return (ops.JAN1(year) + doy - 1) * NS_DAY + frac_ns
+
+
+def _dump_elem_term(tc, dump, loc, pc):
+    e = dump.get(loc)
+    if not e:
+        return None
+    el = e.get("elem", e)
+    if "t" not in el:
+        return None
+    return tables.parse_term(el["t"], tc.decls(pc))
+
+
+def an_times(sub, payload, unit, tag, res):
+    if res.outcome != "return":
+        return
+    prop = payload["prop"]
+    fn = _fn(unit)
+    dump = res.extra["dump"]
+    tc = _checker(sub, unit, prop)
+    base = path_hyps(res.path)
+    K0 = z3.Int("K0")
+    if unit.startswith("image"):
+        from props.imageunit import R
+
+        rec = 720 + K0 * R
+        year, doy, ms = (ops.BEU(z3.IntVal(100), z3.simplify(rec + o), z3.IntVal(4)) for o in (36, 40, 44))  # prefix bytes 37-48
+        got = _dump_elem_term(tc, dump, "/group/sensor_acquisition_date#data", res.path.pc)
+        sub.decided(f"{prop}/{unit}/line-time/present", got is not None, function=fn)
+        if got is not None:
+            sub.prove(f"{prop}/{unit}/line-time/is-instant(year,day,ms)", [K0 >= 0], got == instant_ns(year, doy, ms * 10**6),
+                      function=fn, kind="post", replay=replay_line_time,
+                      detail={"got": str(z3.simplify(got))[:300]})
+        if unit.startswith("image10"):
+            from ceos_alos2.sar_image.signal_data import signal_data_record
+
+            off = 0
+            for sc in signal_data_record.subcons:
+                if getattr(sc, "name", None) == "sensor_acquisition_date_microseconds":
+                    break
+                try:
+                    off += sc.sizeof()
+                except Exception:
+                    pass
+            us = ops.BEU(z3.IntVal(100), z3.simplify(rec + off), z3.IntVal(8))
+            got = _dump_elem_term(tc, dump, "/group/sensor_acquisition_date_microseconds#data", res.path.pc)
+            sub.decided(f"{prop}/{unit}/line-time-us/present", got is not None, function=fn)
+            if got is not None:
+                day_ns = (ops.JAN1(year) + doy - 1) * NS_DAY
+                # ms < 86 400 000 is the stamp's own day (precondition of "rebased on that date")
+                sub.prove(f"{prop}/{unit}/line-time-us/is-day(year,day)+us", [K0 >= 0, ms >= 0, ms < 86400000],
+                          got == day_ns + us * 1000, function=fn, kind="post",
+                          detail={"got": str(z3.simplify(got))[:300]})
+    if unit == "leader":
+        first = dump.get("/platform_position/@datetime_of_first_point")
+        if first is None:
+            return
+        iso = tables.parse_term(first["t"], tc.decls(res.path.pc))
+        sub.decided(f"{prop}/{unit}/first-point/is-isoformat", iso.decl().name() == "isoformat", function=fn,
+                    detail={"term": first["t"][:200]})
+        if iso.decl().name() != "isoformat":
+            return
+        first_us = iso.arg(0)
+        x = z3.Int("x")
+        axiom = z3.ForAll([x], absobj_NP_DT64()(ops.CONCAT(ops.SUBSTR(ops.ISOFMT(x), z3.IntVal(0), z3.IntVal(4)),
+                                                              ops.str_const("-01-01"))) == ops.JAN1(YEAR_OF(x)) * NS_DAY,
+                          patterns=[ops.ISOFMT(x)])
+        for grp in ("attitude", "rates"):
+            got = _dump_elem_term(tc, dump, f"/attitude/{grp}/time#data", res.path.pc)
+            if got is None:
+                continue
+            atoms = [a for a in input_atoms([got], descend=False).values() if a[0] == "ascii_text"]
+            # the two per-point fields: day of year (4 characters) and millisecond of day (8 characters)
+            doy_f = [a[3] for a in atoms if z3.is_int_value(a[2]) and a[2].as_long() == 4 and "K0" in str(a[1])]
+            ms_f = [a[3] for a in atoms if z3.is_int_value(a[2]) and a[2].as_long() == 8 and "K0" in str(a[1])]
+            if len(doy_f) != 1 or len(ms_f) != 1:
+                sub.decided(f"{prop}/{unit}/attitude/{grp}/time-fields-identified", False, function=fn,
+                            detail={"atoms": [str(a[3])[:80] for a in atoms]})
+                continue
+            dec = lambda f: z3.If(ops.IS_EMPTY(ops.STRIP(f)), z3.IntVal(-1), ops.PY_INT(ops.STRIP(f)))  # noqa: E731
+            want = instant_ns(YEAR_OF(first_us), dec(doy_f[0]), dec(ms_f[0]) * 10**6)
+            sub.prove(f"{prop}/{unit}/attitude/time-is-instant(year,day,ms)", [axiom, K0 >= 0], got == want, function=fn,
+                      kind="post", replay=replay_attitude_time,
+                      detail={"got": str(z3.simplify(got))[:400], "group": grp})
+
+
+def absobj_NP_DT64():
+    from pyvc.absobj import NP_DT64
+
+    return NP_DT64
+
+
+def replay_attitude_time(model):
+    """native replay on the real code: one attitude point with day_of_year = 1, 0 ms, year 2020"""
+    import numpy as np
+
+    from ceos_alos2.hierarchy import Group, Variable
+    from ceos_alos2.sar_leader import attitude as A
+    from ceos_alos2.sar_leader import metadata as M
+
+    t = A.transform_time({"day_of_year": [1, 60], "millisecond_of_day": [0, 86399999]})
+    sub = Group(path=None, url=None, data={"time": Variable(["points"], t, {})}, attrs={})
+    g = {"platform_position": Group(path=None, url=None, data={}, attrs={"datetime_of_first_point": "2020-01-01T00:00:00"}),
+         "attitude": Group(path=None, url=None, data={"attitude": sub}, attrs={})}
+    out = M.fix_attitude_time(g)
+    got = [str(v) for v in out["attitude"]["attitude"].data["time"].data]
+    want = ["2020-01-01T00:00:00.000000000", "2020-02-29T23:59:59.999000000"]
+    return {"confirmed": got != want, "witness_class": "any day_of_year",
+            "input": {"year": 2020, "day_of_year": [1, 60], "millisecond_of_day": [0, 86399999]}, "observed": got, "expected": want}
+
+
+def replay_line_time(model):
+    import datetime as dt
+
+    from ceos_alos2.datatypes import DatetimeYdms
+
+    got = DatetimeYdms(None)._decode({"year": 2020, "day_of_year": 60, "milliseconds": 86399999}, None, None)
+    want = dt.datetime(2020, 2, 29, 23, 59, 59, 999000)
+    return {"confirmed": got != want, "input": {"year": 2020, "day_of_year": 60, "milliseconds": 86399999},
+            "observed": str(got), "expected": str(want)}
